@@ -661,5 +661,35 @@ def r07_3(ctx):
     return r
 
 
+def r07_4(ctx):
+    """'bloat': the shared-port demultiplexer learns peer-address -> session routing from the USERNAME of Binding requests
+    BEFORE anything is authenticated (authentication happens in the session). Entries are removed when the session they
+    name goes away - so an entry that names no session is never removed. Anyone can send requests with made-up
+    USERNAMEs from made-up source addresses: the table must only learn routes to sessions that exist. Decided: every
+    insert into the peer table in SharedUdpPort::dispatch is cut by the 'a session is registered under this ufrag' edge."""
+    r = RuleResult("R07.4", "K1", "the shared-port routing table only learns routes to registered sessions")
+    fn = "transports::ice::shared_udp::SharedUdpPort::dispatch"
+    b = ctx.body(fn)
+    r.scope.append(fn)
+    ins = [bi for bi, t, p in b.calls() if p and p.endswith("::insert") and t["a"] and mir.has_field(b.term_operand(t["a"][0]), "peers")]
+    r.need("peer-table inserts in dispatch", len(ins), 1)
+
+    def registered(term, meaning, *_):
+        if term[0] == "call" and term[1].endswith("::contains_key") and mir.has_field(term, "sessions") and meaning is True:
+            return True
+        if term[0] == "discr" and meaning == "Some" and mir.has(term[1], lambda x: x[0] == "call" and x[1].endswith("::get") and mir.has_field(x, "sessions")):
+            return True
+        return False
+    g = core.guard_edges(b, registered)
+    for bi in ins:
+        if g and core.k1(b, [bi], g)[bi] is None:
+            r.ok({"site": b.where(bi), "cut_by": "a session is registered under the named ufrag"})
+        else:
+            r.violate(fn, "peers:unbounded", b.where(bi),
+                      "the routing table learns an entry for whatever ufrag an (unauthenticated) Binding request names: entries for ufrags without a "
+                      "session are never removed, so the table grows without bound under spoofed requests")
+    return r
+
+
 def run(ctx):
-    return [r07_1(ctx), r07_2(ctx), r07_3(ctx)]
+    return [r07_1(ctx), r07_2(ctx), r07_3(ctx), r07_4(ctx)]
